@@ -108,6 +108,34 @@ def run(rep, tier, seed, tr_errors):
             #  resistance; the representation choice is part of perform_kramers_kronig_test, judged above)
         except Exception as e:  # noqa
             bad.append((desc, "raised %s: %s" % (type(e).__name__, str(e)[:150])))
+    # the search for a failing input behind the limits theorem: when the selection skeleton can no longer be translated (or the
+    # theorem over it breaks), scan single-representation suggestions over the bundled circuits for one outside its limits
+    if "tr_suggest" in tr_errors or not thm_ok2:
+        import time as _time
+        t0_, tried = _time.time(), 0
+        found_ = None
+        for sd in range(1, 9):
+            for ident in ["CIRCUIT_%d" % k for k in (8, 17, 11, 19, 1, 2, 3, 4, 5, 6, 7, 9, 10, 12)]:
+                for noise in (0.05, 0.02, 1.0, 0.2):
+                    for adm in (False, True):
+                        if found_ is not None or _time.time() - t0_ > 420:
+                            break
+                        try:
+                            with warnings.catch_warnings():
+                                warnings.simplefilter("ignore")
+                                data = pyimpspec.generate_mock_data(ident, noise=noise, seed=sd)[0]
+                                ev = evaluate_log_F_ext(data, admittance=adm, num_F_ext_evaluations=0, num_procs=1)
+                                res, scores, lo, hi = suggest_num_RC(ev[0][1])
+                            tried += 1
+                            if not (lo <= res.num_RC <= hi and lo < hi):
+                                found_ = (dict(identifier=ident, noise=noise, seed=sd, admittance=adm, check="num_RC within limits (search)"),
+                                          "suggested num_RC = %d lies outside the reported limits [%d, %d]" % (res.num_RC, lo, hi))
+                        except Exception:  # noqa
+                            pass
+        rep.extra["limits_search"] = {"tried": tried, "found": found_ is not None}
+        rep.evaluations += tried
+        if found_ is not None:
+            bad.append(found_)
     rep.extra["support_runs"] = stats
     rep.samples = [dict(identifier=p[0], noise=p[1], seed=p[2]) for p in plan[:3]]
     rep.oblige("automatic test: noise tracked, num_RC within limits, drift flagged (sampled on fixed seeds, frozen band)", not bad, "%d runs, ratios %s..%s, %d failures" % (
